@@ -11,6 +11,8 @@ P = {
          "Rocq/Coq refinement proof (induction over op sequences) + model/implementation correspondence (vm_compute)", "DESIGN.md §4 C03"),
  "C10": ("Tree model (loggers by creation index; name index per parent; every Entry field) with theorems for New lookup/creation with inheritance of level and format only, With* creating a child of the receiver, WithSkip(n) keeping one child per n (idempotence), Set* returning the receiver, ISOLATION of every other logger for one step and for any history (induction), well-formedness (parent older than child => acyclic) of every reachable world, Root parentless, Each = the subtree exactly once with depths, package New detached/coloured/at the default level. Correspondence: random histories of 1..40 operations over all With/Set/New forms incl. writers and the default logger; after every op a per-op oracle (lookup, inheritance, fresh child, isolation of all others), at the end Parent/Root/Each/Sublogger against the creation history, and the model is evaluated on the same history (all fields of all loggers compared).",
          "Rocq/Coq proof (invariants and isolation by induction over histories) + model/implementation correspondence (vm_compute)", "DESIGN.md §4 C10"),
+ "C17": ("For every registry reachable from the tables regenerated from the source (their consistency is checked by computation) by ANY list of RegisterLevel calls: name, text and JSON round trips for every level (invariant preserved by registration, induction over the call list; JSON for any string codec with its own round trip), refusal of a used value/title with all tables unchanged, effects of a successful registration (title, treated-as gating, error-device routing, given short tags), ShortTag(n) length n for levels without custom tags and for the built-in tags. Correspondence: built-ins + random registration histories with colliding/negative/large values, titles of any case, all options; model registry evaluated on the same calls and compared per level (String, ShortTag 1..5, ParseLevel, treated-as, error device); direct oracle = the statement.",
+         "Rocq/Coq proof (registry invariant by induction over registrations; tables regenerated from source) + model/implementation correspondence (vm_compute)", "DESIGN.md §4 C17"),
  "C11": ("Three-state machine for every list of mode calls, mutual-exclusion invariant over every reachable logger tree, getter/shape agreement, locality - proved in Coq about Model/Mode.v and Model/Tree.v; correspondence: exhaustive short call sequences + random histories on the real loggers, evaluated by vm_compute; direct oracle = the statement's machine.",
          "Rocq/Coq proof (induction over call lists and histories) + model/implementation correspondence (vm_compute)", "DESIGN.md §4 C11"),
 }
